@@ -69,3 +69,69 @@ def _val_key(v):
         return ('v', type(v).__name__, v)
     except TypeError:
         return ('id', id(v))
+
+
+def src_key(sig):
+    """Provenance map as comparable plain data: name -> tuple of callable ids,
+    '+depths' -> sorted (id, depth)."""
+    src = getattr(sig, 'sources', None)
+    if src is None:
+        return None
+    out = {}
+    for k, v in src.items():
+        if k == '+depths':
+            out[k] = tuple(sorted((id(f), d) for f, d in v.items()))
+        else:
+            out[k] = tuple(id(f) for f in v)
+    return out
+
+
+def label(f):
+    """Readable label of a source callable."""
+    try:
+        import inspect as _i
+        return '%s%s' % (getattr(f, '__name__', type(f).__name__), _i.signature(f, follow_wrapped=False))
+    except Exception:
+        return repr(f)
+
+
+def src_show(sig):
+    src = getattr(sig, 'sources', None)
+    if src is None:
+        return None
+    out = {}
+    for k, v in src.items():
+        if k == '+depths':
+            out[k] = sorted((label(f), d) for f, d in v.items())
+        else:
+            out[k] = [label(f) for f in v]
+    return out
+
+
+def downgrade(sig):
+    """Plain inspect.Signature carrying the same data."""
+    return inspect.Signature(
+        [inspect.Parameter(p.name, p.kind, default=p.default, annotation=p.annotation)
+         for p in sig.parameters.values()],
+        return_annotation=sig.return_annotation)
+
+
+def well_formed(res):
+    """None if ``res`` is a well-formed UpgradedSignature, else a reason."""
+    if not isinstance(res, UpgradedSignature):
+        return 'result is %s, not UpgradedSignature' % type(res).__name__
+    params = list(res.parameters.values())
+    for p in params:
+        if not isinstance(p, UpgradedParameter):
+            return 'parameter %r is %s, not UpgradedParameter' % (p.name, type(p).__name__)
+    try:
+        inspect.Signature([inspect.Parameter(p.name, p.kind, default=p.default, annotation=p.annotation)
+                           for p in params])
+    except (ValueError, TypeError) as e:
+        return 'parameter list does not re-validate: %s' % e
+    if not space.valid_shape(space.shape_of(res)):
+        return 'invalid parameter order / duplicate names'
+    src = getattr(res, 'sources', None)
+    if not isinstance(src, dict) or '+depths' not in src:
+        return "no '+depths' map in sources"
+    return None
